@@ -43,6 +43,25 @@ pub fn filters() -> Vec<Cfg> {
         v.push(Cfg { pf: pf(vec![0x4006], vec![], vec![], vec![], false), ..base.clone() });
         v.push(Cfg { pf: pf(vec![], vec![0x0a00], vec![], vec![], true), ..base.clone() });
     }
+    // exact addresses and long prefixes of the byte-varied endpoints
+    let eps = crate::props::c10::endpoints();
+    let text = |e: &crate::props::c10::Ep| -> String {
+        if e.v6 {
+            std::net::Ipv6Addr::from(e.addr).to_string()
+        } else {
+            std::net::Ipv4Addr::new(e.addr[0], e.addr[1], e.addr[2], e.addr[3]).to_string()
+        }
+    };
+    for deny in [false, true] {
+        for i in [8usize, 104, 112, 128, 48, 40, 120, 136, 96, 16] {
+            let a = text(&eps[i]);
+            for (src, dst) in [(true, false), (false, true)] {
+                v.push(Cfg { deny, pf: None, af: Some(AF { addrs: vec![a.clone()], src, dst }), sf: None });
+                let net = if eps[i].v6 { format!("{a}/128") } else { format!("{a}/32") };
+                v.push(Cfg { deny, pf: None, af: None, sf: Some(AF { addrs: vec![net], src, dst }) });
+            }
+        }
+    }
     v.push(Cfg { deny: false, pf: None, af: None, sf: None });
     v
 }
@@ -126,6 +145,33 @@ pub fn traces() -> Vec<Trace> {
     let a = vec![mk(false, 1, 40000, 2, 80, SYN, 1000, &[]), mk(false, 2, 80, 1, 40000, SYN | ACK, 5000, &[]), mk(false, 1, 40000, 2, 80, ACK | PSH, 1001, &req), mk(false, 2, 80, 1, 40000, ACK | PSH, 5001, &resp)];
     let b = vec![mk(true, 3, 40001, 4, 443, SYN, 1000, &[]), mk(true, 4, 443, 3, 40001, SYN | ACK, 5000, &[]), mk(true, 3, 40001, 4, 443, ACK | PSH, 1001, &hello[..40]), mk(true, 3, 40001, 4, 443, ACK | PSH, 1041, &hello[40..])];
     let c = vec![mk(false, 3, 1023, 1, 81, SYN, 1000, &[]), mk(false, 1, 81, 3, 1023, SYN | ACK, 5000, &[]), mk(false, 3, 1023, 1, 81, ACK | PSH, 1001, &req), mk(false, 1, 81, 3, 1023, ACK | PSH, 5001, &resp)];
+    // connections between endpoints whose addresses differ in every byte position (IPv4 and IPv6), so that a filter
+    // or extractor that misreads any address byte changes the decision
+    let eps = crate::props::c10::endpoints();
+    let fb = crate::props::c10::frame_between;
+    let mut rich: Vec<Vec<Vec<u8>>> = vec![];
+    for (ci, si, eth) in [(8usize, 40usize, false), (104, 120, true), (112, 136, false), (128, 96, true), (48, 16, true)] {
+        let (c, sv) = (eps[ci], eps[si]);
+        let c = crate::props::c10::Ep { port: 40000 + ci as u16, ..c };
+        let sv = crate::props::c10::Ep { port: if ci % 2 == 0 { 80 } else { 443 }, ..sv };
+        if c.v6 != sv.v6 {
+            continue;
+        }
+        rich.push(vec![fb(&c, &sv, SYN, 1000, &[], eth), fb(&sv, &c, SYN | ACK, 5000, &[], eth), fb(&c, &sv, ACK | PSH, 1001, if sv.port == 443 { &hello } else { &req }, eth), fb(&sv, &c, ACK | PSH, 5001, &resp, eth)]);
+    }
+    for (i, x) in rich.iter().enumerate() {
+        v.push(Trace { name: format!("rich-addresses/{i}/connection"), frames: x.clone() });
+        for (j, y) in rich.iter().enumerate() {
+            if i < j {
+                let mut inter = vec![];
+                for k in 0..4 {
+                    inter.push(x[k].clone());
+                    inter.push(y[k].clone());
+                }
+                v.push(Trace { name: format!("rich-addresses/{i}+{j}/alternating"), frames: inter });
+            }
+        }
+    }
     for (n, x, y) in [("a+b", &a, &b), ("a+c", &a, &c), ("b+c", &b, &c)] {
         let mut inter = vec![];
         for i in 0..4 {
@@ -202,8 +248,10 @@ pub fn run(thorough: bool) -> Outcome {
         for i in rg {
             // connection traces get every filter; single truncated frames every second one in quick
             let full = ts[i].frames.len() > 1;
+            let rich = ts[i].name.starts_with("rich-addresses");
             for (k, c) in fs.iter().enumerate() {
-                if !full && !thorough && k % 3 != 0 {
+                // the address filters (index >= 39) only matter for the byte-varied endpoints
+                if (k >= 39 && !rich && !thorough && k != fs.len() - 1) || (!full && !thorough && k % 3 != 0) {
                     continue;
                 }
                 let _ = &fsel;
